@@ -120,3 +120,27 @@ def count_sweep_partition(tier):
     for k in range(1, M + 1):
         for n in sorted({max(1, k - 1), k, k + 1, 2 * k + 1}):
             yield tuple((3, 1, 2)[i % 3] for i in range(n)), k
+
+
+# ---- "large base + small offsets": magnitudes at which a relative tolerance (1e-5, 1e-9) swallows a difference of a few units
+OFFSET_BASES = (10 ** 5, 10 ** 6, 2 ** 24, 10 ** 9)
+
+
+def offset_letters(b):
+    return (b // 2 + 7, b + 1, b + 5, b + 6, 2 * b + 1, 2 * b + 8)
+
+
+def offset_multisets(nmin, nmax, bases=OFFSET_BASES):
+    for b in bases:
+        for ms in spaces.multisets(offset_letters(b), nmin, nmax):
+            yield ms
+
+
+# ---- cover / packing bin sizes with near-miss letters (integers next to B/3, B/2 and B; B-1 is reachable as a sum)
+def threshold_letters(Bc):
+    return (1, 2, Bc // 3, Bc // 3 + 1, Bc // 2 - 1, Bc // 2, Bc // 2 + 1, Bc, Bc + 1)
+
+
+BIG_BINSIZES = (10 ** 6, 2 ** 32, 2 ** 32 + 2, 3 * 2 ** 31, 10 ** 10)
+# exactly representable halves around B/2 and B for an odd and an even bin size
+HALVES = {7: (0.5, 1.5, 2.5, 3, 3.5, 4.5, 6.5, 7), 10: (0.5, 2.5, 4.5, 5, 5.5, 7.5, 9.5, 10)}
